@@ -617,6 +617,51 @@ func genC06(g *Gen) error {
 		})
 	}
 	g.StrList("writeParamNames", names)
+	// ReadLinesBlockExt: the guard under which what is buffered is handed over as a block when a
+	// read returned no byte (`if n == 0 { … if <guard> { return dstBuf, tailBuf, nil } … }`), as
+	// the list of its conjuncts
+	fd, err = g.Func(c06Stream, "ReadLinesBlockExt")
+	if err != nil {
+		return err
+	}
+	var guard []string
+	found := 0
+	ast.Inspect(fd.Body, func(n ast.Node) bool {
+		is, ok := n.(*ast.IfStmt)
+		if !ok || g.Src(is.Cond) != "n == 0" {
+			return true
+		}
+		for _, st := range is.Body.List {
+			inner, ok := st.(*ast.IfStmt)
+			if !ok || len(inner.Body.List) == 0 {
+				continue
+			}
+			rs, ok := inner.Body.List[len(inner.Body.List)-1].(*ast.ReturnStmt)
+			if !ok || len(rs.Results) != 3 || g.Src(rs.Results[0]) != "dstBuf" || g.Src(rs.Results[2]) != "nil" {
+				continue
+			}
+			found++
+			var conj func(e ast.Expr)
+			conj = func(e ast.Expr) {
+				if be, ok := e.(*ast.BinaryExpr); ok && be.Op == token.LAND {
+					conj(be.X)
+					conj(be.Y)
+					return
+				}
+				if pe, ok := e.(*ast.ParenExpr); ok {
+					conj(pe.X)
+					return
+				}
+				guard = append(guard, g.Src(e))
+			}
+			conj(inner.Cond)
+		}
+		return false
+	})
+	if found != 1 {
+		return fmt.Errorf("ReadLinesBlockExt: %d hand-over branches under `n == 0` (expected 1)", found)
+	}
+	g.StrList("tailHandoverGuard", guard)
 	g.Footer()
 	return nil
 }
